@@ -499,6 +499,17 @@ pub fn corner_files() -> Vec<(Cfg, Vec<Entry>)> {
     v.push((c(0, 1024, 9, 0), (0..90u32).map(|i| ((i * 2).to_be_bytes().to_vec(), value_for(i + 1, 3))).collect()));
     v.push((c(0, 1024, 16, 1), (0..150u32).map(|i| ((i * 3).to_be_bytes().to_vec(), value_for(i + 1, 0))).collect()));
     v.push((c(5, 4096, 1000, 2), (0..260u32).map(|i| ((i * 2).to_be_bytes().to_vec(), value_for(i + 1, 7))).collect()));
+    // the last insert dumps a data block AND the deepest index block, then the writer is finished
+    v.push((c(0, 1024, 8, 2), longs(16, 0)));
+    v.push((c(0, 1024, 8, 3), longs(32, 0)));
+    v.push((c(5, 1024, 8, 2), longs(48, 0)));
+    v.push((c(0, 1024, 8, 3), longs(64, 0)));
+    // the highest compression levels (window sizes declared by the frame depend on the level)
+    for (codec, level) in [(4u8, 19u32), (4, 20), (4, 22), (2, 9)] {
+        let mut cf = c(codec, 1024, 8, 1);
+        cf.level = level;
+        v.push((cf, (0..8u32).map(|i| ((i * 2).to_be_bytes().to_vec(), value_for(i + 1, 300))).collect()));
+    }
     v
 }
 
@@ -756,7 +767,7 @@ pub fn summary(out: TraceOut) -> Value {
 /// C14 through the public API: entries whose key and value lengths sit on the framing
 /// boundaries (2^7, 2^14, 2^21 -1/+0/+1; 2^28 in the heavy tier), written and read back.
 pub fn scn_framing(out: &mut TraceOut, r: &mut R, idx: u64, heavy: bool) {
-    let lens: [usize; 11] = [0, 1, 127, 128, 129, 16383, 16384, 16385, 2097151, 2097152, 2097153];
+    let lens: [usize; 13] = [0, 1, 127, 128, 129, 16383, 16384, 16385, 2097151, 2097152, 2097153, 4194304, 8388613];
     if heavy && idx % 29 == 27 {
         // a KEY on the 2^28 boundary (keys ordered by their first byte, see Dict::event)
         let kl = (1usize << 28) - 1 + (idx as usize / 29) % 3;
@@ -776,7 +787,7 @@ pub fn scn_framing(out: &mut TraceOut, r: &mut R, idx: u64, heavy: bool) {
     let (kl, vl) = if heavy && idx % 29 == 28 {
         (4usize, (1usize << 28) - 1 + (idx as usize / 29) % 3)
     } else {
-        (lens[(idx as usize) % 11], lens[(idx as usize / 11) % 11])
+        (lens[(idx as usize) % 13], lens[(idx as usize / 13) % 13])
     };
     let cfg = Cfg { codec: 0, level: 0, block_size: *pick(r, &[1024usize, 8192]), interval: *pick(r, &[1usize, 8]), levels: *pick(r, &[0u8, 1, 2]) };
     let mut entries: Vec<Entry> = Vec::new();
